@@ -396,6 +396,83 @@ fn many_hunks(run: &Run) {
     }
 }
 
+/// Archives written by earlier releases (the repository's testdata: 0.6.0 ... 0.6.17; up to
+/// 0.6.3 the band tail carries no hunk count): a new version is added, deleted again (dry, then
+/// for real), then gc runs; the old version must stay as it was.
+fn old_format_archives(run: &Run) {
+    let base = Path::new("/repo/testdata/archive/minimal");
+    let Ok(rd) = std::fs::read_dir(base) else {
+        run.count("old_format_testdata_missing", 1);
+        return;
+    };
+    let mut versions: Vec<PathBuf> = rd.flatten().map(|e| e.path()).filter(|p| p.is_dir()).collect();
+    versions.sort();
+    let sc = crate::scratch::Scratch::new("c05old");
+    let src = sc.join("src");
+    let mut spec = Snapshot::new();
+    spec.insert("/".into(), crate::tree::Node::dir());
+    spec.insert("/unrelated".into(), crate::tree::Node::file(b"content that the old version does not have".to_vec()));
+    spec.insert("/unrelated2".into(), crate::tree::Node::file(vec![7u8; 3000]));
+    crate::tree::sync_to_disk(None, &spec, &src).expect("materialise");
+    for v in versions {
+        let name = v.file_name().unwrap().to_string_lossy().into_owned();
+        let arch = sc.join(&format!("arch-{name}"));
+        fmt06::copy_dir(&v, &arch);
+        run.eval();
+        let replay = json!({"old_format": name});
+        let restore_b0 = |what: &str| -> Option<Snapshot> {
+            let dest = sc.fresh("old");
+            let r = cs::restore(cs::local(&arch), Some(0), &dest, None, &[], false);
+            if !r.clean() {
+                run.violation("old-format:kept-version-no-longer-restores", format!("archive written by {name}, {what}: restore of b0000 {}", r.describe()), replay.clone());
+                return None;
+            }
+            let s = crate::tree::snapshot(&dest).ok();
+            crate::scratch::rm(&dest);
+            s
+        };
+        let Some(expected) = restore_b0("untouched") else { continue };
+        let blocks_before: BTreeSet<String> = fmt06::dir_bytes(&arch).keys().filter(|k| path_class(k) == "block").cloned().collect();
+        let b = cs::backup(cs::local(&arch), &src, cs::Opts { hunk: 100_000, block: 1000, cap: 64 }, &[], None);
+        if !b.clean() {
+            run.violation("old-format:backup-failed", format!("archive written by {name}: {}", b.describe()), replay);
+            continue;
+        }
+        let with_new = fmt06::dir_bytes(&arch);
+        for (what, ids, dry) in [("delete of the new version (dry run)", vec![1u32], true), ("delete of the new version", vec![1u32], false), ("gc", vec![], false)] {
+            let d = cs::delete(cs::local(&arch), &arch, &ids, dry, false);
+            run.count("real_deletes", (!dry) as u64);
+            run.count("deletes_on_archives_written_by_earlier_releases", 1);
+            if !d.ok() {
+                run.violation("old-format:delete-err", format!("archive written by {name}, {what}: {}", d.describe()), replay.clone());
+                break;
+            }
+            let now = fmt06::dir_bytes(&arch);
+            if dry && now != with_new {
+                run.violation("dry-run-changed-archive", format!("archive written by {name}, {what}"), replay.clone());
+                break;
+            }
+            let blocks_now: BTreeSet<String> = now.keys().filter(|k| path_class(k) == "block").cloned().collect();
+            if let Some(lost) = blocks_before.difference(&blocks_now).next() {
+                run.violation("old-format:block-of-kept-version-removed", format!("archive written by {name}, {what}: {lost} was there before the new version was added and is gone"), replay.clone());
+                break;
+            }
+            if !dry && blocks_now != blocks_before {
+                run.violation("unreferenced-block-remains", format!("archive written by {name}, {what}: {:?}", blocks_now.difference(&blocks_before).next()), replay.clone());
+                break;
+            }
+            match restore_b0(what) {
+                Some(s) if s == expected => run.count("kept_versions_restored", 1),
+                Some(_) => {
+                    run.violation("old-format:kept-version-restores-differently", format!("archive written by {name}, after {what}"), replay.clone());
+                    break;
+                }
+                None => break,
+            }
+        }
+    }
+}
+
 pub fn run(tier: Tier, replay: Option<Value>) -> i32 {
     let run = Run::new("C05", "fault_enumeration", tier, replay.clone());
     let n_arch = tier.pick(5u64, 150);
@@ -403,6 +480,12 @@ pub fn run(tier: Tier, replay: Option<Value>) -> i32 {
     if scale_replay {
         super::alongside(&run, "the many-hunks deletes", || many_hunks(&run), || ());
         return run.finish("replay", &[], None, &[]);
+    }
+    if replay.is_none() || replay.as_ref().and_then(|r| r.get("old_format")).is_some() {
+        old_format_archives(&run);
+        if replay.is_some() {
+            return run.finish("replay", &[], None, &[]);
+        }
     }
     let bulk = || {
     // build archives first (cheap), then shard (archive, subset) pairs
@@ -457,9 +540,9 @@ pub fn run(tier: Tier, replay: Option<Value>) -> i32 {
         bulk();
     }
     run.finish(
-        "(first: gc, delete of the newer and of the older of two versions of a 10 040-file tree with one entry per hunk -- hunks in two index subdirectories -- judged like every other fault-free delete) archives from short histories (2-4 versions sharing combined blocks, optionally an interrupted band in the middle and garbage blocks from a hand-removed band); for each, every subset D of the bands when <= 4 (else 8 incl. none and all), named in a seeded random order and, for two or more versions, also newest first x {dry run, real}; with a GC_LOCK already present every delete must be refused and leave the archive (that lock included) byte-identical. Real runs: the fault-free delete must remove exactly D, leave other band directories byte-identical, leave exactly the blocks referenced by the remaining bands' own hunks (independent scan) and every kept complete version must restore exactly; then EVERY crash point k of the delete's trace and EVERY read/list_dir/metadata operation failing with each of 4 kinds: kept complete versions still restore exactly and no kept band has a dangling reference. Distinct = (history, D).",
+        "(first: the repository's archives written by releases 0.6.0-0.6.17 get a new version, which is deleted again -- dry, real -- and a gc: their old version keeps its blocks and restores as before; gc, delete of the newer and of the older of two versions of a 10 040-file tree with one entry per hunk -- hunks in two index subdirectories -- judged like every other fault-free delete) archives from short histories (2-4 versions sharing combined blocks, optionally an interrupted band in the middle and garbage blocks from a hand-removed band); for each, every subset D of the bands when <= 4 (else 8 incl. none and all), named in a seeded random order and, for two or more versions, also newest first x {dry run, real}; with a GC_LOCK already present every delete must be refused and leave the archive (that lock included) byte-identical. Real runs: the fault-free delete must remove exactly D, leave other band directories byte-identical, leave exactly the blocks referenced by the remaining bands' own hunks (independent scan) and every kept complete version must restore exactly; then EVERY crash point k of the delete's trace and EVERY read/list_dir/metadata operation failing with each of 4 kinds: kept complete versions still restore exactly and no kept band has a dangling reference. Distinct = (history, D).",
         &["kill = no later storage effect", "E2 reader trusted"],
         Some(true),
-        &[("real_deletes", 10), ("crash_points", 100), ("read_faults", 100), ("deletes_that_removed_blocks", 3), ("kept_versions_restored_after_fault", 50), ("deletes_on_versions_with_more_than_10000_hunks", 3)],
+        &[("real_deletes", 10), ("crash_points", 100), ("read_faults", 100), ("deletes_that_removed_blocks", 3), ("kept_versions_restored_after_fault", 50), ("deletes_on_versions_with_more_than_10000_hunks", 3), ("deletes_on_archives_written_by_earlier_releases", 6)],
     )
 }
